@@ -8,7 +8,7 @@ NAME="$1"; PATCH="$(readlink -f "$2")"; TIER="$3"; shift 3
 W=/tmp/mut-$NAME; L=/tmp/mutlog-$NAME
 rm -rf "$W" "$L"; mkdir -p "$W" "$L"
 rsync -a --exclude target /repo/ "$W/repo/"
-rsync -a --exclude evidence /verif/ "$W/verif/"; mkdir -p "$W/verif/evidence"
+rsync -a --exclude evidence --exclude "engine/fuzz/target-*" "${VERIF_SRC:-/verif}/" "$W/verif/"; mkdir -p "$W/verif/evidence"
 if ! git -C "$W/repo" apply "$PATCH"; then echo "PATCH-FAILED $NAME"; rm -rf "$W"; exit 2; fi
 unshare -m bash -c "
   mount --bind $W/repo /repo && mount --bind $W/verif /verif && cd /verif || exit 2
